@@ -7,9 +7,9 @@ use crate::raw::{Type, UtpHeader};
 use crate::seq_nr::SeqNr;
 
 #[derive(Clone, Copy, PartialEq)]
-struct Slot { kind: u8, len: usize, b0: u8, b1: u8 }   // kind: 0 empty, 1 payload, 2 eof
+pub struct Slot { pub kind: u8, pub len: usize, pub b0: u8, pub b1: u8 }   // kind: 0 empty, 1 payload, 2 eof
 
-fn slot_of(m: &OoqMessage) -> Slot {
+pub fn slot_of(m: &OoqMessage) -> Slot {
     match m {
         OoqMessage::Eof => Slot { kind: 2, len: 0, b0: 0, b1: 0 },
         OoqMessage::Payload(p) if p.is_empty() => Slot { kind: 0, len: 0, b0: 0, b1: 0 },
@@ -27,7 +27,7 @@ fn any_slot() -> OoqMessage {
 }
 
 /// Representation invariant, executable form.
-fn wf(q: &OutOfOrderQueue) -> bool {
+pub fn wf(q: &OutOfOrderQueue) -> bool {
     if q.data.len() != q.capacity { return false; }
     let mut n = 0;
     let mut b = 0;
@@ -42,7 +42,7 @@ fn wf(q: &OutOfOrderQueue) -> bool {
     n == q.len && b == q.len_bytes && q.filled_front <= q.len
 }
 
-fn any_ooq<const CAP: usize>() -> OutOfOrderQueue {
+pub fn any_ooq<const CAP: usize>() -> OutOfOrderQueue {
     let mut data = VecDeque::with_capacity(CAP + 1);
     let mut i = 0;
     while i < CAP { data.push_back(any_slot()); i += 1; }
